@@ -259,10 +259,16 @@ func checkC02(c *Ctx, r *Report) {
 		atEnd := edgeExcl(isCursor, lenQ, ordLT) // cursor > len cannot happen; `>=` is an equivalent spelling
 		r6.guard(f, "qbuf = nil", nilStores, "qseek == len(qbuf)", atEnd, nil)
 		r6.guard(f, "qseek = 0", zeroStores, "qseek == len(qbuf)", atEnd, nil)
-		endEdges := edgesWhere(f, atEnd)
-		w1, n1 := (&Cut{Fn: f, FromEdges: endEdges, Target: isRet, Sep: inSet(nilStores)}).Run(c)
-		w2, n2 := (&Cut{Fn: f, FromEdges: endEdges, Target: isRet, Sep: inSet(zeroStores)}).Run(c)
-		r6.Check(len(endEdges) >= 1 && w1 == "" && w2 == "", ss("Read")+": a fully consumed queue is released and the cursor reset", f.Pos(), n1+n2+1, "", "the next Read returns 0 bytes forever (or re-reads stale plaintext with a stale cursor)", w1+w2)
+		// whenever the cursor may equal the queue's length after an advance, the queue is released:
+		// from the advance, a return is reached only through the release or over an edge that proves cursor != len
+		adv := findInstrs(f, func(in ssa.Instruction) bool {
+			st, ok := in.(*ssa.Store)
+			return ok && isFieldWrite(in, ssT+".qseek") && isCursorSum(st.Val, ssT+".qseek")
+		})
+		notEnd := edgeExcl(isCursor, lenQ, ordEQ)
+		w1, n1 := (&Cut{Fn: f, From: adv, Target: isRet, Sep: inSet(nilStores), EdgeCut: notEnd}).Run(c)
+		w2, n2 := (&Cut{Fn: f, From: adv, Target: isRet, Sep: inSet(zeroStores), EdgeCut: notEnd}).Run(c)
+		r6.Check(len(adv) >= 1 && w1 == "" && w2 == "", ss("Read")+": a fully consumed queue is released and the cursor reset", f.Pos(), n1+n2+1, "", "the next Read returns 0 bytes forever (or re-reads stale plaintext with a stale cursor)", w1+w2)
 		// queued bytes are served before the wire is read again
 		wire := findInstrs(f, callPred(ss("readNextInsecureMsgLen")))
 		r6.guard(f, "read next frame", wire, "qbuf == nil", edgeNil(isLoadOfField(ssT+".qbuf"), true), nil)
